@@ -7,7 +7,7 @@ import json
 import os
 
 from .. import tlc, tracecheck
-from ..common import Check, MachineryError, NCPU
+from ..common import Check, MachineryError, NCPU, load_known_findings
 from ..harness import e2e
 from ..harness.servercheck import _extract_diag
 
@@ -213,6 +213,38 @@ def slow_http_conversations(seed, n):
     return out
 
 
+def f27_normalise(trace):
+    """Known finding F27 (threaded client, pre-emptive schedule): one step with two client
+    disconnect events - 'transport error' / 'server disconnect' from the read loop, then 'client
+    disconnect' from disconnect() itself.  Returns (trace without the first of the two, hit):
+    the rest of the conversation is still validated."""
+    out, hit = [], False
+    for st in trace:
+        cd = [i for i, e in enumerate(st['ev']) if e['e'] == 'cdisc']
+        if st['op'] in ('csendcdisc', 'cdisc') and len(cd) == 2 and \
+                st['ev'][cd[0]].get('r') in ('terror', 'server') and st['ev'][cd[1]].get('r') == 'client' \
+                and any(e['e'] == 'sdisc' for e in st['ev'][:cd[0]]):
+            st = dict(st, ev=[e for i, e in enumerate(st['ev']) if i != cd[0]])
+            hit = True
+        out.append(st)
+    return out, hit
+
+
+def racing_conversations(seed, n):
+    rng = random.Random(seed)
+    out = []
+    for i in range(n):
+        sc = [{'op': 'connect', 'tr': ('poll', 'both', 'poll', 'ws')[i % 4]}, {'op': 'tick', 't': 1}]
+        if rng.random() < 0.5:
+            sc.append({'op': 'csend', 'k': rng.choice([1, 2, 17])})
+        if rng.random() < 0.3:
+            sc.append({'op': 'ssend', 'k': rng.choice([1, 2])})
+        sc.append({'op': 'csendcdisc', 'k': rng.choice([1, 1, 2, 3, 5, 17])})
+        sc.append({'op': 'tick', 't': 400})
+        out.append(sc)
+    return out
+
+
 def run(tier):
     ck = Check('C10', tier)
     th = tier == 'thorough'
@@ -275,6 +307,26 @@ def run(tier):
                     ck.distinct([facts['pair'], 'slowhttp', hl, pi, pt, k])
                     if facts['client_calls_blocked']:
                         blocked.append((metas[-1], facts['client_calls_blocked']))
+    # threaded client and threaded server on one pre-emptive hub: sends and disconnect() issued
+    # back to back, so that disconnect() overlaps the write loop's request under many schedules
+    for k, sc in enumerate(racing_conversations(seed + 50, 48 if not th else 200)):
+        scfg = {'ping_interval': 16, 'ping_timeout': 8, 'monitor': k % 2 == 0}
+        steps, facts = e2e.run_conversation('sync', 'sync', scfg, sc, seed=seed * 1009 + k, preempt=True)
+        tr, hit = f27_normalise(to_trace(steps))
+        if hit:
+            opn, _ = load_known_findings('C10')
+            f27 = [e for e in opn if e['id'] == 'F27']
+            if f27:
+                ck.known_finding('F27', f27[0]['what'])
+                ck.cov['f27_schedules'] = ck.cov.get('f27_schedules', 0) + 1
+            else:
+                tr = to_trace(steps)        # not listed: judged as it is
+        traces.append(tr)
+        metas.append({'pair': facts['pair'], 'transports': sc[0]['tr'], 'hb': [16, 8], 'script': sc,
+                      'schedule_seed': seed * 1009 + k, 'preempt': True})
+        ck.distinct([facts['pair'], 'racing', k])
+        if facts['client_calls_blocked']:
+            blocked.append((metas[-1], facts['client_calls_blocked']))
     v = tracecheck.validate('EioE2ETrace', traces, constants={'MaxMsg': 100000}, batch=400)
     ck.cov['states'] += v.states
     ck.cov['transitions'] += v.generated
@@ -339,9 +391,9 @@ def explain(tr):
     asked = False
     cd = sd = 0
     for li, st in enumerate(tr):
-        if st['op'] in ('cdisc', 'sdisc'):
+        if st['op'] in ('cdisc', 'sdisc', 'csendcdisc'):
             asked = True
-        if st['op'] == 'csend':
+        if st['op'] in ('csend', 'csendcdisc'):
             cs += len(st['a']['acc'])
         if st['op'] == 'ssend':
             ss += len(st['a']['acc'])
@@ -390,7 +442,8 @@ def replay(path):
     steps, facts = e2e.run_conversation(cimpl, simpl, {'ping_interval': m['hb'][0],
                                                         'ping_timeout': m['hb'][1]}, m['script'],
                                         latency=m.get('latency', 0),
-                                        http_latency=m.get('http_latency', 0))
+                                        http_latency=m.get('http_latency', 0),
+                                        seed=m.get('schedule_seed', 0), preempt=m.get('preempt', False))
     tr = to_trace(steps)
     v = tracecheck.validate('EioE2ETrace', [tr], constants={'MaxMsg': 100000})
     mode = MODE[m['transports']]
